@@ -430,6 +430,9 @@ impl Ctx {
                     if ctx.tolerate_known(&f, stats) {
                         Ok(())
                     } else {
+                        if !stats.frozen && std::env::var("VERIF_DEBUG_FIRST").is_ok() {
+                            eprintln!("FIRST FAILURE {}: {}\ncase: {}", f.key, f.msg, serde_json::to_string(&case).unwrap_or_default());
+                        }
                         stats.frozen = true;
                         Err(TestCaseError::fail(format!("{}: {}", f.key, f.msg)))
                     }
